@@ -355,6 +355,111 @@ pub fn generate(prop: &str, thorough: bool, rng: &mut Rng) -> Case {
             }
             clients.push(ops);
         }
+        "C08" => {
+            cfg.insert("tp".into(), if rng.chance(2, 3) { rng.below(4) as i64 } else { 4 + rng.below(15) as i64 });
+            cfg.insert("items".into(), (4 + rng.below(14)) as i64 * scale as i64);
+            cfg.insert("gen_seed".into(), rng.next() as i64 & 0xffff_ffff);
+            cfg.insert("reopen".into(), rng.below(2) as i64);
+            cfg.insert("mem_cap".into(), 2);
+            cfg.insert("tomb".into(), 0);
+            let bp = *rng.pick(&[8i64, 8, 16]);
+            cfg.insert("block_pages".into(), bp);
+            let ample = rng.chance(2, 3);
+            cfg.insert("ample".into(), ample as i64);
+            cfg.insert("blocks".into(), if ample { 40 } else { 4 + rng.below(4) as i64 });
+            let flushers = cfg["flushers"];
+            let per = match rng.below(3) {
+                0 => bp * 3,
+                1 => bp,
+                _ => 2 + rng.below(bp as usize) as i64,
+            };
+            cfg.insert("buf_pages".into(), per * flushers);
+            return Case { property: prop.to_string(), scenario: "c08".into(), cfg, clients: vec![vec![]] };
+        }
+        "C07" => {
+            let c08 = false;
+            let keys = 6 + rng.below(6) as u64;
+            cfg.insert("keys".into(), keys as i64);
+            cfg.insert("policy".into(), 0);
+            cfg.insert("mem_cap".into(), 2 + rng.below(3) as i64);
+            cfg.insert("inmem_mod".into(), 0);
+            cfg.insert("ondisk_mod".into(), 0);
+            cfg.insert("hmode".into(), 0);
+            if !c08 {
+                cfg.insert("comp".into(), if rng.chance(3, 4) { 0 } else { 1 + rng.below(2) as i64 });
+            }
+            let bp = *rng.pick(&[8i64, 8, 12, 16, 32]);
+            cfg.insert("block_pages".into(), bp);
+            cfg.insert("blocks".into(), if rng.chance(1, 2) { 4 + rng.below(4) as i64 } else { 10 + rng.below(10) as i64 });
+            // buffers: sometimes several blocks worth (one batch spans blocks), sometimes barely one entry
+            let flushers = cfg["flushers"];
+            let per = match rng.below(3) {
+                0 => bp * 3,
+                1 => bp,
+                _ => bp + rng.below(bp as usize) as i64,
+            };
+            cfg.insert("buf_pages".into(), per * flushers);
+            let max_pages = (bp - cfg["blob_pages"]) as u32;
+            let mut ops = vec![];
+            let n = (10 + rng.below(40)) * scale;
+            for _ in 0..n {
+                let k = rng.below(keys as usize) as u64;
+                let pages = match rng.below(6) {
+                    0 => max_pages,
+                    1 => max_pages + 1,
+                    2 => 1,
+                    _ => 1 + rng.below(max_pages as usize) as u32,
+                };
+                match rng.below(20) {
+                    0..=12 => ops.push(Op::WriterInsert { k, ver: 0, w: 100 + pages, force: true }),
+                    13 | 14 => ops.push(Op::Wait),
+                    15 => ops.push(Op::Delete { k }),
+                    16 => ops.push(Op::Get { k, hold: false }),
+                    17 => ops.push(Op::Yield { n: 1 + rng.below(3) as u8 }),
+                    18 => {
+                        if rng.chance(1, 3) {
+                            ops.push(Op::Wait);
+                            ops.push(Op::Reopen);
+                        }
+                    }
+                    _ => ops.push(Op::Insert { k, ver: 0, w: 100 + pages.min(2), loc: 2, hold: false }),
+                }
+            }
+            ops.push(Op::Wait);
+            if rng.chance(1, 2) {
+                ops.push(Op::Reopen);
+            }
+            clients.push(ops);
+        }
+        "C03" => {
+            let keys = 4 + rng.below(4) as u64;
+            cfg.insert("keys".into(), keys as i64);
+            cfg.insert("thorough".into(), thorough as i64);
+            cfg.insert("mem_cap".into(), 2 + rng.below(3) as i64);
+            // small devices so that reclaim leaves older generations behind
+            cfg.insert("blocks".into(), 4 + rng.below(5) as i64);
+            cfg.insert("block_pages".into(), 8);
+            cfg.insert("inmem_mod".into(), 0);
+            cfg.insert("ondisk_mod".into(), 0);
+            fit_buffers(&mut cfg, rng, false);
+            if rng.chance(1, 4) {
+                // live corruption: reads return flipped / zeroed / misdirected bytes or fail while the store is running
+                cfg.insert("live_corrupt".into(), 30 + rng.below(120) as i64);
+                cfg.insert("live_error".into(), rng.below(60) as i64);
+            }
+            let loc = |_k: u64| -> u8 { 0 };
+            let mix = Mix { insert: 50, writer: 0, get: 22, fetch: 5, contains: 0, remove: 8, clear: 0, evict_all: 8, wait: 6, reopen: if cfg.contains_key("live_corrupt") { 2 } else { 0 }, yld: 2 };
+            let classes = if rng.chance(1, 3) { vec![0, 1, 4] } else { vec![0, 1, 1, 2, 3] };
+            let n = 10 + rng.below(if thorough { 40 } else { 30 });
+            let mut ops = gen_ops(rng, n, keys, &mix, &classes, &loc);
+            for op in ops.iter_mut() {
+                match op {
+                    Op::Insert { hold, .. } | Op::Get { hold, .. } => *hold = false,
+                    _ => {}
+                }
+            }
+            clients.push(ops);
+        }
         "C04" => {
             if rng.chance(1, if thorough { 12 } else { 60 }) {
                 // big-blob variant: one blob whose index spills into its second page (> 170 entries), then an in-place
